@@ -258,6 +258,7 @@ def sameLinModel (m : Model (Ext Rat)) (a b : LinModel Bits) : Sexp :=
   match sameLin false a b "" "" with
   | .list (.atom "violation" :: .atom kind :: rest) =>
     if kind == "trivial-rows-renormalised" || kind == "derived-domain-differs-on-recompile" then viol kind rest
+    else if (modelExps m).any Display.logicUnderArith then viol "display-logic-operand-unparenthesised" [.atom kind]
     else if (modelExps m).any Display.subDivDefect then viol "display-drops-needed-parens" [.atom kind]
     else viol kind rest
   | r => r
